@@ -745,6 +745,60 @@ func TestVerifC11InProcess(t *testing.T) {
 		}
 		mu.Unlock()
 	}()
+	// an in-process server whose start response is the empty message (every field at its default: a frame of zero
+	// bytes), after which it waits to be stopped: whatever the verdict, the batch ends in bounded time with one outcome
+	// per case (such a response names no port: the cases cannot be run)
+	wg.Add(1)
+	go func() {
+		defer wg.Done()
+		n := 2
+		var testCases []*conformancev1.TestCase
+		expected := map[string]*conformancev1.ClientResponseResult{}
+		for i := 0; i < n; i++ {
+			exp := &conformancev1.ClientResponseResult{Payloads: []*conformancev1.ConformancePayload{{Data: []byte(fmt.Sprintf("payload-%d", i))}}}
+			testCases = append(testCases, &conformancev1.TestCase{Request: &conformancev1.ClientCompatRequest{TestName: vfC11Name(i)}, ExpectedResponse: exp})
+			expected[vfC11Name(i)] = exp
+		}
+		server := func(ctx context.Context, _ []string, in io.ReadCloser, out, _ io.WriteCloser) error {
+			req := &conformancev1.ServerCompatRequest{}
+			if err := internal.ReadDelimitedMessage(in, req, "runner", 10*time.Second, 1<<20); err != nil {
+				return err
+			}
+			if _, err := out.Write([]byte{0, 0, 0, 0}); err != nil {
+				return err
+			}
+			<-ctx.Done()
+			return nil
+		}
+		results := newResults(n, &testTrie{}, &testTrie{}, nil)
+		client := &vfFakeClient{c: vfC11Case{N: n, Delivery: "sync"}, expected: expected}
+		done := make(chan struct{})
+		go func() {
+			defer close(done)
+			runTestCasesForServer(context.Background(), false, false, serverInstance{}, testCases, nil, nil, runInProcess([]string{"verif-server"}, server), &vfC11Printer{}, &vfC11Printer{}, results, client, nil, false)
+		}()
+		c := map[string]any{"batch": n, "server": "answers-with-the-empty-message"}
+		var viol error
+		bound := serverResponseTimeout + 2*gracefulShutdownPeriod + 10*time.Second
+		select {
+		case <-done:
+			results.mu.Lock()
+			for i := 0; i < n; i++ {
+				if _, ok := results.outcomes[vfC11Name(i)]; !ok {
+					viol = verifkit.Violf("empty-response-outcome", "case %d has no outcome", i)
+				}
+			}
+			results.mu.Unlock()
+		case <-time.After(bound):
+			viol = verifkit.Violf("empty-response-hang", "the server answered the start request with a zero-length message and then waited to be stopped: the batch did not end within %v", bound)
+		}
+		mu.Lock()
+		en.Rec.Observe(c, []string{"empty-start-response"}, true)
+		if viol != nil {
+			en.Fail(c, viol)
+		}
+		mu.Unlock()
+	}()
 	// an in-process reference server that writes to its stderr BEFORE it answers the start request (a warning, or the
 	// reason why it cannot start): the line is passed through and the batch goes on / fails at once - the server is not
 	// left blocked on a stderr pipe that nobody reads yet
